@@ -321,7 +321,7 @@ func (e *env) fail(format string, args ...any) {
 
 func newEnv(c c22Case) *env {
 	e := &env{c: c, n: len(c.TS) - 1, t: c.Target, abort: make(chan struct{}), skipped: map[string]int{}}
-	e.strict = os.Getenv("VERIF_C22_STRICT_GENESIS") == "1"
+	e.strict = os.Getenv("VERIF_C22_STRICT_GENESIS") != "0" // the genesis stop is demanded (repaired by fix F22)
 	e.minTS = max(0, c.TS[e.t]-c.Window)
 	e.chain = make([]*blk, e.n+1)
 	e.fchain = make([]*blk, e.n+1)
@@ -922,7 +922,7 @@ func c22Run(c c22Case, st *vstat.Stats) (rerr error) {
 	}
 	st.Sample(nt, map[string]any{"ts": fmt.Sprint(c.TS), "target": c.Target, "window": c.Window, "suffix": c.Suffix,
 		"script": renderScript(c.Script), "save_fail_at": c.SaveFailAt, "rounds": rounds, "saved": len(saved), "outcome": outcome})
-	st.Assumption("chains reachable by real callers: genesis is older than the target's validity window (the real genesis header is 2023-01-01 and honest block timestamps are wall-clock); chains younger than the window are generated too but the missing genesis stop of the client is only labelled (VERIF_C22_STRICT_GENESIS=1 turns it into a violation)")
+	st.Assumption("chains younger than the validity window are in the domain (property: back past the window or to genesis): reaching genesis must complete the backfill; VERIF_C22_STRICT_GENESIS=0 only labels it")
 	st.Assumption("constant validity-window rule; no UpdateSyncTarget while backfilling; block id = SHA-256 of the block bytes; tx ids unique within the true chain")
 
 	if verdict != nil {
